@@ -545,6 +545,65 @@ def is_initial_residual(sv, V, r, at):
     return all(ctx.term(max(cs, key=_pos)["args"][0]) == r for cs in arms.values())
 
 
+def last_copy_source(sv, V, at):
+    """Source vector term of the last identity_preconditioner(&src, &mut V) that precedes node `at` in the same
+    block path (statement order), or None."""
+    ctx = sv.ctx
+    best = None
+    for c in walk(sv.fn["body"]):
+        if c.get("k") == "MethodCall" and callee_path(c) == IDP and _lval(ctx, c["args"][1]) == V and _pos(c) < _pos(at):
+            # must be on the same control path: every If-branch block enclosing c also encloses `at`
+            blocks_c = [id(a) for a in ancestors(c) if a.get("k") == "Block" and a.get("_p") is not None and a["_p"].get("k") == "If"]
+            anc_at = set(id(a) for a in ancestors(at))
+            if all(b in anc_at for b in blocks_c):
+                if best is None or _pos(c) > _pos(best):
+                    best = c
+    return ctx.term(best["args"][0]) if best is not None else None
+
+
+def rule_normaliser(rep, sv, name):
+    """Every definition of the divisor of the residual normalisations is ||b|| (or the norm of b's preconditioned copy)."""
+    ctx, fn = sv.ctx, sv.fn
+    divs = set()
+    for n in walk(fn["body"]):
+        if n.get("k") == "Binary" and n.get("op") == "/" and not n.get("x"):
+            nd = norm_def(ctx.term(n))
+            if nd is not None:
+                divs.add(nd[1])
+    rule = "the divisor of the residual normalisation is defined as the norm of the right-hand side b (or of its identity-preconditioned copy), apart from the zero-norm repair `= 1.0`"
+    if len(divs) != 1 or list(divs)[0][0] != "var":
+        rep.bad("normaliser/%s" % name, rule, fn["body"], "divisors: %s" % [show(d, ctx) for d in divs], where="%s:%d" % (fn["file"], fn["span"][0]))
+        return
+    nb = list(divs)[0]
+    defs = []
+    b = ctx.binds.get(nb[1])
+    if b is not None and b.init is not None:
+        defs.append((b.node, strip(b.init)))
+    for a in ctx.assigns.get(nb[1], []):
+        if a.get("k") == "Assign":
+            defs.append((a, strip(a["r"])))
+    ok, det = bool(defs), []
+    n_norm = 0
+    for node, rhs in defs:
+        t = ctx.term(rhs)
+        if t[0] == "num" and t[1] != 0:
+            det.append("repair value %s" % t[1])
+            continue
+        if t[0] == "call" and str(t[1]).endswith("::norm_2"):
+            V = t[2]
+            src = V
+            if V != B_:
+                src = last_copy_source(sv, V, node)
+            good = src == B_
+            n_norm += 1
+            ok = ok and good
+            det.append("norm_2(%s) with %s holding %s" % (show(V, ctx), show(V, ctx), show(src, ctx) if src else "?"))
+        else:
+            ok = False
+            det.append("unrecognised definition %s" % show(t, ctx))
+    rep.add("normaliser/%s" % name, rule, ok and n_norm >= 1, defs[0][0] if defs else fn["body"], "; ".join(det))
+
+
 def norm_def(t):
     """`V.norm_2() / n` -> (V, n)"""
     if t[0] == "op" and t[1] == "/" and t[2][0] == "call" and str(t[2][1]).endswith("::norm_2"):
@@ -581,6 +640,7 @@ def run(rep, pdb, tier):
         # ---- initial residual
         r = sv.residual_var()
         rep.add("initial-residual/%s" % name, "r is initialised as b - self.multiply(x) (b positive)", r is not None, fn["body"], "residual variable: %s" % (show(r, ctx) if r else None), where=where)
+        rule_normaliser(rep, sv, name)
         # ---- x untouched outside the loop
         xw = [e for e in effects(pdb, ctx) if e.target == X_ or (e.target[0] in ("idx", "field") and e.target[1] == X_)]
         outside = [e for e in xw if not any(a is sv.main for a in ancestors(e.node))]
@@ -653,6 +713,7 @@ def run(rep, pdb, tier):
                         "R=%s defs=%s" % (show(R, ctx) if R else None, [show(t, ctx) for _, t in defs]))
     rep.floor("budget/", 4)
     rep.floor("initial-residual/", 4)
+    rep.floor("normaliser/", 4)
     rep.floor("x-untouched/", 4)
     rep.floor("breakdown-is-err/", 4)
     rep.floor("residual-tracks-iterate/", 5)
